@@ -260,6 +260,10 @@ fn rejected_inputs() -> Vec<(&'static str, &'static str)> {
         ("whitespace-only", "  \n\n"),
         ("comment-only", "# nothing here\n"),
         ("tab-indent", "a:\n\tb: 1\n"),
+        // a tagged scalar as a key is a map ({Ref: x}) in key position, not a string
+        ("tagged-key", "!Ref x: v\n"),
+        ("tagged-key-explicit", "? !Sub a\n: v\n"),
+        ("nested-tagged-key", "a:\n  !GetAtt b.c: 1\n"),
     ]
 }
 
